@@ -542,9 +542,15 @@ class SymNum(float):
         return self._rbin(o, lambda a, b: a - b, operator.sub)
 
     def __mul__(self, o):
+        td = _times_timedelta(self, o)
+        if td is not None:
+            return td
         return self._bin(o, _mul, operator.mul)
 
     def __rmul__(self, o):
+        td = _times_timedelta(self, o)
+        if td is not None:
+            return td
         return self._rbin(o, _mul, operator.mul)
 
     def __neg__(self):
@@ -710,6 +716,43 @@ class sym_float(metaclass=_FloatMeta):
     pass
 
 
+def _times_timedelta(num, o):
+    """symbolic integer * timedelta (n * timeframe): a symbolic timedelta; anything else is left to the numeric path"""
+    import datetime as _dtm
+    from . import symtime
+    if isinstance(o, symtime.SymTD):
+        return o.__mul__(num)
+    if isinstance(o, _dtm.timedelta):
+        if num.t.sort().kind() != z3.Z3_INT_SORT:
+            raise Unsupported("non-integer symbolic factor * timedelta")
+        return symtime.SymTD(num.t * z3.IntVal(symtime._td_secs(o)))
+    return None
+
+
+class _IntMeta(type):
+    def __instancecheck__(cls, x):
+        return isinstance(x, builtins.int)
+
+    def __subclasscheck__(cls, c):
+        return issubclass(c, builtins.int)
+
+    def __call__(cls, x=0, *a, **k):
+        if isinstance(x, SymNum) and not a and not k:
+            # int() truncates toward zero
+            if x.t.sort().kind() == z3.Z3_INT_SORT:
+                return x
+            if ENGINE.round_mode == "exact":
+                r = _fold(lambda p, q: math.trunc(p), x.t, x.t)
+                if r is not None:
+                    return r
+            return SymNum(z3.If(x.t >= 0, z3.ToInt(x.t), -z3.ToInt(-x.t)))
+        return builtins.int(x, *a, **k)
+
+
+class sym_int(metaclass=_IntMeta):
+    pass
+
+
 def _anysym(xs):
     return any(isinstance(x, (SymNum, SymBool)) for x in xs)
 
@@ -776,6 +819,7 @@ def install_shims():
     for m in mods:
         d = m.__dict__
         d["float"] = sym_float
+        d["int"] = sym_int
         d["max"] = sym_max
         d["min"] = sym_min
         if "sqrt" in d:
